@@ -73,6 +73,7 @@ func TestCheck(t *testing.T) {
 		"eBPF fast path not loaded (Loader map calls fail), no RADIUS/Nexus/QoS/NAT attached",
 		"an un-requested OFFER reserves its address for 60 s (offer hold); every time step of the alphabet exceeds it",
 		"an expired lease may stay reserved until the next one-minute cleanup tick (ticker emulated at server start + k*60 s)",
+		"a client that sends RELEASE gives up its own binding even if ciaddr names another address (RELEASE is keyed by chaddr); a RELEASE never affects another client's lease, offer or reservation",
 		"client identity = chaddr; a relayed message with option 82 also speaks for its circuit-id (the server's relay-aware index)",
 		"DHCPv6: replies captured from a loopback UDP socket read non-blockingly; message handler called synchronously (the receive loop is sequential)",
 	}
